@@ -346,7 +346,7 @@ func c07Run(r *core.Run) {
 	r.Bounds["route_sets"] = len(c07Sets)
 	r.Bounds["methods"] = c07Methods
 	if !r.Thorough() {
-		r.Bounds["quick_reduction"] = "all 6 method strings only with user NotFound and middleware both present; GET alone with neither; GET and the empty method with exactly one of them; thorough runs every combination"
+		r.Bounds["quick_reduction"] = "all 6 method strings only with user NotFound and middleware both present; GET alone with neither; GET and the empty method with exactly one of them, on every third path; the six remaining known methods on every 16th path; thorough runs every combination"
 	}
 	r.Assumptions = []string{"the path is given as req.URL.Path (arbitrary bytes)", "first value of a repeated header is the one matched (http.Header.Get)"}
 	type job struct {
@@ -366,12 +366,20 @@ func c07Run(r *core.Run) {
 					if !r.Thorough() && mw != nf && m != "GET" && m != "" {
 						continue // quick: the mixed configurations with GET and the empty method only
 					}
-					jobs = append(jobs, job{si, nf, mw, m, 1})
+					stride := 1
+					if !r.Thorough() && mw != nf {
+						stride = 3 // quick: the mixed configurations on every third path
+					}
+					jobs = append(jobs, job{si, nf, mw, m, stride})
 				}
 			}
 		}
 		for _, m := range c07RareMethods {
-			jobs = append(jobs, job{si, false, false, m, 8}, job{si, true, true, m, 8})
+			rare := 8
+			if !r.Thorough() {
+				rare = 16
+			}
+			jobs = append(jobs, job{si, false, false, m, rare}, job{si, true, true, m, rare})
 		}
 	}
 	r.Parallel(func(w, nw int, l *core.Local) {
